@@ -80,14 +80,16 @@ def build():
          defs=["crc_def(msg_chars, start_index, 0)"],
          loops={0: LoopSpec(assume=["crc_def(msg_chars, start_index, index)"],
                             invariant=["0 <= index <= num_chars", "crc8_byte == crc(msg_chars, start_index, index)",
-                                       "0 <= crc8_byte <= 255"])},
+                                       "0 <= crc8_byte <= 255"],
+                            roles={"index": "counter", "crc8_byte": "acc"})},
          result=Bytes,
          ensures=[("one byte: the CRC of exactly msg[start : start+num]",
                    "len(result) == 1 and byte_of(result) == crc(msg_chars, start_index, num_chars)")],
          raises={"AssertionError": "len(msg_chars) < start_index + num_chars"}, modifies=[], pure=True)
     C.fn("OppRs232Intf.calc_crc8_whole_msg", params=dict(msg_chars=Seq(Int)),
          defs=["crc_def(msg_chars, 0, 0)"],
-         loops={0: LoopSpec(assume=["crc_def(msg_chars, 0, _k)"], invariant=["crc8_byte == crc(msg_chars, 0, _k)", "0 <= crc8_byte <= 255"])},
+         loops={0: LoopSpec(assume=["crc_def(msg_chars, 0, _k)"], invariant=["crc8_byte == crc(msg_chars, 0, _k)", "0 <= crc8_byte <= 255"],
+                            roles={"crc8_byte": "acc"})},
          result=Bytes,
          ensures=[("one byte: the CRC of the whole message",
                    "len(result) == 1 and byte_of(result) == crc(msg_chars, 0, len(msg_chars))")],
